@@ -382,16 +382,9 @@ impl MarkdownEventsReader {
 }
 
 fn line_starts(content: &str) -> Vec<usize> {
+    // byte offset of the first byte after every `\n` (correct for `\r\n` endings as well)
     once(0)
-        .chain(
-            content
-                .lines()
-                .map(|line| line.len() + 1)
-                .scan(0, |start, len| {
-                    *start += len;
-                    Some(*start)
-                }),
-        )
+        .chain(content.match_indices('\n').map(|(index, _)| index + 1))
         .collect()
 }
 
